@@ -363,6 +363,67 @@ def mit_hostrealm_cross(wd, limit_subsets=400):
             "first": [lines[i - 1] for i in bad[:4]]}
 
 
+def mit_conf_cross(wd, confs, limit=400):
+    """the meaning Krb5Conf gives the rendered krb5.conf models (C16) against MIT's profile library reading the same text: booleans
+    (every spelling), durations (krb5_string_to_deltat), integers, strings, enctype lists as written, per-realm server lists in order,
+    domain mappings.  Structurally valid models only."""
+    exe = build_mitref()
+    if exe is None:
+        return {"available": False}
+    d = os.path.join(wd, "mitconfs")
+    os.makedirs(d, exist_ok=True)
+    sel = [c for c in confs if c["model"]["structure"] == "ok"][:limit]
+    reqs, plans = [], []
+    for i, c in enumerate(sel):
+        m = c["model"]
+        f = os.path.join(d, "k%d.conf" % i)
+        open(f, "w").write(c["text"])
+        specs, exp = [], []
+        for e in m["lib"]:
+            if sum(1 for x in m["lib"] if x["key"] == e["key"]) != 1:
+                continue
+            if e["kind"] == "bool" and e["spelling"].lower() == "f":
+                continue        # "f" is a boolean for gokrb5 (strconv.ParseBool) but not for MIT, whose list has "t" and no "f"
+            if e["kind"] == "bool":
+                sp = e["spelling"].lower()
+                specs.append("b:libdefaults:" + e["key"])
+                exp.append(("bool " + e["key"], "true" if sp in ("true", "t", "1", "yes", "y") else "false" if sp in ("false", "f", "0", "no", "n") else "bad"))
+            elif e["kind"] == "dur" and e["dur"]["fmt"] != "bad":
+                dd = e["dur"]
+                secs = dd["s"] if dd["fmt"] == "sec" else dd["h"] * 3600 + dd["m"] * 60 + (dd["s"] if dd["fmt"] == "hms" else 0) if dd["fmt"] in ("hm", "hms") else dd["d"] * 86400 + dd["h"] * 3600 + dd["m"] * 60 + dd["s"]
+                specs.append("d:libdefaults:" + e["key"])
+                exp.append(("duration " + e["key"] + " " + str(dd), str(secs)))
+            elif e["kind"] in ("int", "str"):
+                specs.append("s:libdefaults:" + e["key"])
+                exp.append((e["kind"] + " " + e["key"], str(e["v"])))
+        for r in m["realms"]:
+            if sum(1 for x in m["realms"] if x["name"] == r["name"]) != 1:
+                continue
+            for key, lst in (("kdc", r["kdc"]), ("admin_server", r["admin"]), ("kpasswd_server", r["kpasswd"]), ("master_kdc", r["master"])):
+                if lst:
+                    specs.append("v:realms:%s:%s" % (r["name"], key))
+                    exp.append(("servers %s %s" % (r["name"], key), [s["host"] + (":%d" % s["port"] if s["port"] else "") + ("*" if s["final"] else "") for s in lst]))
+        for dm in m["domains"]:
+            if sum(1 for x in m["domains"] if x["dom"] == dm["dom"]) == 1:
+                specs.append("s:domain_realm:" + dm["dom"])
+                exp.append(("domain " + dm["dom"], dm["realm"]))
+        specs, exp = specs[:60], exp[:60]
+        reqs.append("conf %s %s" % (f, " ".join(specs)))
+        plans.append(exp)
+    outs = mit(exe, reqs)
+    shutil.rmtree(d, ignore_errors=True)
+    values, problems = 0, []
+    for i, (exp, o) in enumerate(zip(plans, outs)):
+        if o["rc"] != 0:
+            problems.append({"conf": i, "what": "MIT does not load the file (rc %d)" % o["rc"]})
+            continue
+        for (what, want), got in zip(exp, o["vals"]):
+            values += 1
+            if got != want:
+                problems.append({"conf": i, "what": what, "model_says": want, "mit_reads": got})
+    return {"available": True, "files": len(sel), "values_compared": values, "disagreements": len(problems), "first": problems[:6]}
+
+
 PAC_NOT_COMPARABLE = {
     "kdcdecl": "MIT does not look at the KDC signature's declared type when no KDC key is given; gokrb5 and the specification need it to know how many octets to zero",
     "rodc": "MIT 1.20 zeroes the whole remainder of a signature buffer, RODC identifier included; [MS-PAC] 2.8 zeroes the Signature field only (the specification follows MS-PAC)",
